@@ -17,7 +17,7 @@ func init() { checks["C07"] = c07 }
 func c07(args []string) {
 	c := chk.New("C07", "exploration", args)
 	c.Build(false)
-	c.Rule("(a) mixed-cores contention workloads (max in {2,3,4,6}, multisets of task classes with cores in 1..max) with yields of up to 3 ms at slots.before_lock / slots.deposit / slots.release so that token-by-token acquisitions of different tasks interleave whenever the lock does not prevent it: must terminate (structural hang classifier, never elapsed time); (b) rendezvous groups: k tasks with k*cores <= max and nothing else ready must all be inside their command at the same time (each announces itself and waits for k announcements; completion is the witness; on expiry the hook event log decides: a waiter blocked in the slot acquisition although free >= needed is a violation, anything else inconclusive); (c) CoresPerTask > max must be refused by the library (exit != 0 with its own message, no command of that process), a Go-runtime deadlock report is not a refusal. distinct_nontrivial = distinct (max, cores multiset, interleaving signature) of contention runs in which >= 2 tasks overlapped their acquisitions' waiting, plus completed rendezvous groups and refusals")
+	c.Rule("(a) mixed-cores contention workloads (max in {2,3,4,6}, multisets of task classes with cores in 1..max) with yields of up to 3 ms at slots.before_lock / slots.deposit / slots.release so that token-by-token acquisitions of different tasks interleave whenever the lock does not prevent it: must terminate (structural hang classifier, never elapsed time); (a2) the same with outputs of waiting tasks appearing on disk while they wait (written by sibling tasks): must terminate with every slot given back (shadow counter 0) and every task either run or skipped; (b) rendezvous groups: k tasks with k*cores <= max and nothing else ready must all be inside their command at the same time (each announces itself and waits for k announcements; completion is the witness; on expiry the hook event log decides: a waiter blocked in the slot acquisition although free >= needed is a violation, anything else inconclusive); (c) CoresPerTask > max must be refused by the library (exit != 0 with its own message, no command of that process), a Go-runtime deadlock report is not a refusal. distinct_nontrivial = distinct (max, cores multiset, interleaving signature) of contention runs in which >= 2 tasks overlapped their acquisitions' waiting, plus completed rendezvous groups and refusals")
 	c.Assume("head-of-line blocking behind a waiting multi-core task is legal: rendezvous groups are homogeneous and run with nothing else ready", "yields only make legal interleavings frequent (Go is preemptive)")
 	rng := c.Rand("c07")
 	type job struct {
@@ -92,6 +92,30 @@ func c07(args []string) {
 				Cmd: spec.BuildCmd("rvp", []spec.PortDecl{{Name: "in"}}, []spec.PortDecl{{Name: "out"}}, nil, nil, nil)})
 			s.Conns = append(s.Conns, &spec.Conn{From: "src.out", To: "rvp.in"})
 			jobs = append(jobs, &job{s: s, bh: bh, cfg: Cfg{Buf: 128, Procs: []int{1, 2, 8}[r%3]}, kind: "rendezvous", k: k, cores: 1})
+		}
+	}
+	// (a2) outputs of waiting tasks appear on disk while they wait for their slots (here: written as an
+	// additional file by a sibling task, the way a second instance of the workflow or the user would)
+	for _, max := range []int{1, 2, 3} {
+		for r := 0; r < c.Pick(2, 8); r++ {
+			n := 4 * (max + 1)
+			s := &spec.Spec{Name: fmt.Sprintf("appear_m%d", max), MaxTasks: max, Sources: map[string]string{}}
+			src := &spec.Proc{Name: "src", Kind: spec.KFileSource}
+			bh := vproto.Behaviours{}
+			for i := 0; i < n; i++ {
+				f := fmt.Sprintf("a%02d.txt", i)
+				src.Files = append(src.Files, f)
+				s.Sources[f] = f
+				b := map[string]string{"sleep": fmt.Sprint(10 + rng.Intn(20))}
+				if i < n/2 {
+					b["extra"] = fmt.Sprintf("a%02d.txt.w.out", i+n/2)
+				}
+				bh[vproto.TaskKey("W", []vproto.KV{{K: "in", V: f}}, nil, nil)] = b
+			}
+			s.Procs = append(s.Procs, src, &spec.Proc{Name: "W", Kind: spec.KCmd, Cores: 1,
+				Cmd: spec.BuildCmd("W", []spec.PortDecl{{Name: "in"}}, []spec.PortDecl{{Name: "out"}}, nil, nil, nil), Outs: []*spec.Out{{Port: "out", Pattern: "{i:in|basename}.w.out"}}})
+			s.Conns = append(s.Conns, &spec.Conn{From: "src.out", To: "W.in"})
+			jobs = append(jobs, &job{s: s, bh: bh, cfg: Cfg{Buf: 128, Procs: []int{1, 2, 8}[r%3], Sched: fmt.Sprintf("%d,500,1500", rng.Intn(1<<30))}, kind: "appear"})
 		}
 	}
 	// (c) oversize cores
@@ -245,6 +269,32 @@ func c07(args []string) {
 		}
 		if res.Exit != 0 || !res.Returned {
 			c.Violation("exit-nonzero", fmt.Sprintf("contention workload exited %d: %s", res.Exit, tail(res.Output(), 600)), map[string]interface{}{"spec": j.s, "cfg": j.cfg})
+			return
+		}
+		if j.kind == "appear" {
+			// every task either ran or was skipped, and every slot was given back
+			held, acquired, skipped := 0, 0, 0
+			for _, e := range res.Events {
+				held = e.Held
+				switch e.Pt {
+				case "task.slots_acquired":
+					acquired++
+				case "task.skip_existing":
+					skipped++
+				}
+			}
+			n := len(j.s.Procs[0].Files)
+			if held != 0 {
+				c.Violation("slots-not-returned", fmt.Sprintf("%d slot(s) still held when the workflow finished (outputs of waiting tasks appeared during the run)", held), map[string]interface{}{"spec": j.s, "cfg": j.cfg, "behav": j.bh})
+				return
+			}
+			if acquired+skipped != n {
+				c.Violation("task-missing", fmt.Sprintf("%d tasks acquired slots and %d were skipped, of %d", acquired, skipped, n), map[string]interface{}{"spec": j.s, "cfg": j.cfg, "behav": j.bh})
+				return
+			}
+			c.Count("appearing_output_runs_completed", 1)
+			c.Count("tasks_skipped_because_output_appeared", skipped)
+			c.Nontrivial(fmt.Sprintf("appear|%d|%s", j.s.MaxTasks, mon.InterleavingSig(res.Events)))
 			return
 		}
 		// every task ran
